@@ -18,7 +18,6 @@ import (
 	"os"
 	"sort"
 	"strings"
-	"sync"
 	"sync/atomic"
 	"time"
 	"unicode/utf8"
@@ -1035,18 +1034,9 @@ func (x *scanCtx) checkC18(p *pnode, q, line string, plan scanRegion, u []string
 		what string
 	}
 	var pins []pin
-	onlyAtomPinsAndOpaque := true
 	for _, cj := range cs {
 		if in, ok := cj.pinRegion(); ok {
 			pins = append(pins, pin{in, cj.text()})
-			continue
-		}
-		switch cj.kind {
-		case pOpaque:
-		case pCmp, pIn, pBetween, pConst:
-			onlyAtomPinsAndOpaque = false
-		default:
-			onlyAtomPinsAndOpaque = false
 		}
 	}
 	if len(pins) > 0 {
@@ -1140,31 +1130,43 @@ func (x *scanCtx) checkC18(p *pnode, q, line string, plan scanRegion, u []string
 	if unsat != "" {
 		if plan.kind == "EMPTY" {
 			c.Hist("c18:unsat-empty")
-		} else if len(pins) > 2 && (unsat == "two incompatible prefixes" || unsat == "two disjoint ranges") {
-			// a third key conjunct of another kind between the two: AND is folded pairwise along the
-			// tree, and PREFIX ∩ RANGE keeps an over-approximation (key ^= 'b' & key >= 'ba' → RANGE[ba,∞)),
-			// so `key ^= 'c' & (key ^= 'b' & key >= 'ba')` reads PREFIX c: still inside a pinned region
-			// (checked above), but not "nothing".  Outside the canonical shapes of C18; counted.
-			c.Hist("c18:unsat-three-key-conjuncts-not-empty")
-			c18ObsOnce.Do(func() {
-				c.Note("C18 observation (counted as c18:unsat-three-key-conjuncts-not-empty, not a finding): " + visible(q) + " is unsatisfiable (" + unsat + ") and is planned as " + plan.String() + ", not EMPTY")
-			})
-		} else if onlyAtomPinsAndOpaque || unsat == "false" {
-			find("C18-unsat", unsat+" as conjuncts should read nothing")
 		} else {
-			// other key conjuncts in between: the pinned over-approximations of PREFIX∩RANGE may lose it
-			c.Hist("c18:unsat-general-not-empty")
+			// whatever the other conjuncts are and however the two are nested: optimizeAndExpr tests
+			// every pair of conjuncts of the flattened spine (theorem C18.unsat_reads_nothing)
+			find("C18-unsat", unsat+" as conjuncts should read nothing")
 		}
 	}
 }
-
-var c18ObsOnce sync.Once
 
 func isRangeAtom(p *pnode) bool {
 	if p.kind == pBetween {
 		return true
 	}
 	return p.kind == pCmp && p.op != "=" && p.op != "^="
+}
+
+// tripleConjunctions: a ∘ (b ∘ c) and (a ∘ b) ∘ c over a small list of key atoms and an opaque one
+func tripleConjunctions() []*pnode {
+	c := func(op, l string) *pnode { return &pnode{kind: pCmp, op: op, lits: []string{l}} }
+	atoms := []*pnode{
+		c("^=", "b"), c("^=", "c"), c("^=", "ba"), c(">=", "ba"), c(">", "c"), c("<", "bb"), c("<=", "a"),
+		c("=", "ba"), c("=", "c"), {kind: pBetween, lits: []string{"b", "bz"}}, {kind: pIn, lits: []string{"ba", "c"}},
+		{kind: pOpaque, opq: 0},
+	}
+	var out []*pnode
+	for i, op := range []string{"&", "and"} {
+		op2 := []string{"&", "and"}[1-i]
+		for _, x := range atoms {
+			for _, y := range atoms {
+				for _, z := range atoms {
+					out = append(out,
+						&pnode{kind: pBin, op: op, l: x, r: &pnode{kind: pBin, op: op2, l: y, r: z}},
+						&pnode{kind: pBin, op: op, l: &pnode{kind: pBin, op: op2, l: x, r: y}, r: z})
+				}
+			}
+		}
+	}
+	return out
 }
 
 // ---------------------------------------------------------------- the group
@@ -1226,6 +1228,10 @@ func runSCAN(e *Env) (*Summary, error) {
 	} else {
 		cases = append(cases, depth1(hiAtoms(), []string{"&", "|"})...)
 	}
+	// three conjuncts in both nestings (both tiers): the face-unsatisfiable pair of C18 with a third
+	// conjunct between, before or after it — PREFIX ∩ RANGE keeps the range, so only the pair test of
+	// optimizeAndExpr sees the incompatible prefixes of `key ^= 'c' & (key ^= 'b' & key >= 'ba')`
+	cases = append(cases, tripleConjunctions()...)
 	nExh := len(cases)
 	nRand := e.n(20_000, 500_000)
 	var inadequate, rejected int64
